@@ -5,12 +5,6 @@ CONSTANTS Spas = {"a", "b", "c"}
           Initial = 3
           Timeout = 6
           MaxArrivals = 4
-          ListsAll = FALSE
-INVARIANT NoDuplicates
+          ListsAll = TRUE
 INVARIANT OnlyRequested
-INVARIANT WithinTimeout
-INVARIANT PromptWhenFiltered
-INVARIANT PromptWhenFound
-INVARIANT PromptWhenAny
-INVARIANT NotEarly
 CHECK_DEADLOCK FALSE
